@@ -154,7 +154,12 @@ func evalC15(c c15Case) (fl *Failure) {
 	defer func() {
 		ts.ReleaseAll()
 		if running {
-			srv.Stop()
+			done := make(chan struct{})
+			go func() { srv.Stop(); close(done) }()
+			select {
+			case <-done:
+			case <-time.After(3 * time.Second): // a Stop that hangs has been reported already
+			}
 		}
 	}()
 
